@@ -146,14 +146,14 @@ var operators = map[OpName]*opInfo{
 	OpTextBegin: {Since: pdf.V1_0, Allowed: ObjPage, Transition: ObjText, Sets: graphics.StateTextMatrix},
 	OpTextEnd:   {Since: pdf.V1_0, Allowed: ObjText, Transition: ObjPage},
 
-	// Text State (allowed in any context)
-	OpTextSetCharacterSpacing:  {Since: pdf.V1_0, Allowed: ObjAny, Sets: graphics.StateTextCharacterSpacing},
-	OpTextSetWordSpacing:       {Since: pdf.V1_0, Allowed: ObjAny, Sets: graphics.StateTextWordSpacing},
-	OpTextSetHorizontalScaling: {Since: pdf.V1_0, Allowed: ObjAny, Sets: graphics.StateTextHorizontalScaling},
-	OpTextSetLeading:           {Since: pdf.V1_0, Allowed: ObjAny, Sets: graphics.StateTextLeading},
-	OpTextSetFont:              {Since: pdf.V1_0, Allowed: ObjAny, Sets: graphics.StateTextFont},
-	OpTextSetRenderingMode:     {Since: pdf.V1_0, Allowed: ObjAny, Sets: graphics.StateTextRenderingMode},
-	OpTextSetRise:              {Since: pdf.V1_0, Allowed: ObjAny, Sets: graphics.StateTextRise},
+	// Text State (page level and text objects, see Figure 9 of ISO 32000-2)
+	OpTextSetCharacterSpacing:  {Since: pdf.V1_0, Allowed: ObjPage | ObjText, Sets: graphics.StateTextCharacterSpacing},
+	OpTextSetWordSpacing:       {Since: pdf.V1_0, Allowed: ObjPage | ObjText, Sets: graphics.StateTextWordSpacing},
+	OpTextSetHorizontalScaling: {Since: pdf.V1_0, Allowed: ObjPage | ObjText, Sets: graphics.StateTextHorizontalScaling},
+	OpTextSetLeading:           {Since: pdf.V1_0, Allowed: ObjPage | ObjText, Sets: graphics.StateTextLeading},
+	OpTextSetFont:              {Since: pdf.V1_0, Allowed: ObjPage | ObjText, Sets: graphics.StateTextFont},
+	OpTextSetRenderingMode:     {Since: pdf.V1_0, Allowed: ObjPage | ObjText, Sets: graphics.StateTextRenderingMode},
+	OpTextSetRise:              {Since: pdf.V1_0, Allowed: ObjPage | ObjText, Sets: graphics.StateTextRise},
 
 	// Text Positioning (only in text context)
 	OpTextMoveOffset:           {Since: pdf.V1_0, Allowed: ObjText},
